@@ -33,6 +33,12 @@ Theorem C16_other_lookup : forall m B L x, local L = true -> free_attr m B L x =
   lookup (wm_chain m B L) x = lookup (pl_chain m B L) x.
 Proof. exact lookup_nonattr. Qed.
 
+(* the map argument mentioned by name is the plain argument in both modes (never an attribute of itself: m is
+   not read as m.m) - the chain GenerateWithMap builds has AddArgs([m]) above AddMap(m) *)
+Theorem C16_map_name_is_argument : forall m B L, local L = true -> bound_in L m = false ->
+  lookup (wm_chain m B L) m = Some (id_plain m) /\ lookup (pl_chain m B L) m = Some (id_plain m).
+Proof. exact (fun m B L HL Hb => conj (lookup_map_wm m B L HL Hb) (lookup_map_pl m B L HL Hb)). Qed.
+
 (* shadowing: let / func / closure parameters (and constants found by let) named like an attribute win *)
 Theorem C16_shadowing_local : forall m B L x, local L = true -> bound_in L x = true ->
   lookup (wm_chain m B L) x = lookup L x /\ lookup (pl_chain m B L) x = lookup L x.
@@ -91,6 +97,7 @@ Proof. vm_compute. repeat split. Qed.
 Print Assumptions C16_withmap_is_qualify_partial.
 Print Assumptions C16_attribute_lookup.
 Print Assumptions C16_other_lookup.
+Print Assumptions C16_map_name_is_argument.
 Print Assumptions C16_shadowing_local.
 Print Assumptions C16_shadowing_const.
 Print Assumptions C16_outers_agree.
